@@ -166,6 +166,12 @@ class _State:
         self.parks = set(case.get("parks") or [])
         self.eagain = set(case.get("eagain") or [])
         self.park_s = float(case.get("park_ms", 1)) / 1000.0
+        # round 7 (packets of more than IOV_MAX chunks): `span` - a partial sendmsg() takes sizes[k] bytes ACROSS the buffers it
+        # was given (it may stop at a buffer boundary, inside a buffer, or take the whole batch); `kernel` - no scripted sizes:
+        # the partial writes are the kernel's own (small SO_SNDBUF / SO_RCVBUF, peer reading slowly)
+        self.span = bool(case.get("span"))
+        self.kernel = bool(case.get("kernel"))
+        self.partial_batches = 0              # sendmsg() calls that left at least two buffers of their batch unsent
         self.k = 0
         self.started = [0] * nthreads         # auxiliary calls begun, per thread (single writer each)
         self.incall = [False] * nthreads      # thread is inside an auxiliary call right now
@@ -217,12 +223,36 @@ class PartialSocket(socket.socket):
     def send(self, data, flags=0):  # type: ignore[override]
         k = self._gate()
         mv = memoryview(data).cast("B")
-        n = super().send(mv[: self._size(k)], flags)
+        n = super().send(mv if self.st.kernel else mv[: self._size(k)], flags)
         self._after(k)
         return n
 
     def sendmsg(self, buffers, *args):  # type: ignore[override]
         k = self._gate()
+        st = self.st
+        if st.kernel:
+            bl = list(buffers)
+            n = super().sendmsg(bl, *args)              # the kernel decides how much it takes (non-blocking socket)
+            if len(bl) > 2 and n + memoryview(bl[-1]).nbytes + memoryview(bl[-2]).nbytes < sum(memoryview(b).nbytes for b in bl):
+                st.partial_batches += 1                 # (at least two buffers of the batch are left)
+            self._after(k)
+            return n
+        if st.span:
+            left = self._size(k)
+            parts = []
+            it = iter(buffers)
+            for b in it:
+                mv = memoryview(b).cast("B")
+                if len(mv):
+                    parts.append(mv[:left])
+                    left -= len(parts[-1])
+                    if left <= 0:
+                        break
+            n = super().send(b"".join(parts)) if parts else 0
+            if sum(1 for _b, _ in zip(it, (0, 1))) == 2:
+                st.partial_batches += 1
+            self._after(k)
+            return n
         for b in buffers:
             mv = memoryview(b).cast("B")
             if len(mv):
@@ -262,6 +292,10 @@ def _tcp_pair(st: _State) -> tuple[socket.socket, socket.socket]:
         srv.listen(1)
         c = socket.socket(socket.AF_INET, socket.SOCK_STREAM)
         try:
+            if st.kernel:
+                # (set before listen / connect: the kernel rounds them up to its minimum, a few kilobytes)
+                srv.setsockopt(socket.SOL_SOCKET, socket.SO_RCVBUF, 2048)
+                c.setsockopt(socket.SOL_SOCKET, socket.SO_SNDBUF, 2048)
             c.connect(srv.getsockname())
             peer, _ = srv.accept()
         except BaseException:
@@ -444,9 +478,14 @@ def _run_once(case: dict, hub: _Hub | None = None, me: int = 0) -> list[str]:
     st.t_end = time.monotonic() + (1.0 if _gate_confirmed else GATE_DEADLINE)
     peer.settimeout(0.005)
 
+    peer_read = int(case.get("peer_read", 65536))
+    peer_nap = float(case.get("peer_nap_ms", 0)) / 1000.0
+
     def peer_loop() -> None:
         pending = list(peer_out)
         while not stop.is_set() and time.monotonic() < t_end + 5:
+            if peer_nap and not senders_done.is_set():
+                time.sleep(peer_nap)            # a slow reader: the sender's socket buffer stays full (kernel partial writes)
             if pending:
                 try:
                     peer.sendall(pending.pop(0)) if tcp else peer.send(pending.pop(0))
@@ -455,7 +494,7 @@ def _run_once(case: dict, hub: _Hub | None = None, me: int = 0) -> list[str]:
             if not pending:
                 peer_sent_all.set()
             try:
-                d = peer.recv(65536)
+                d = peer.recv(peer_read)
             except TimeoutError:
                 continue
             except OSError:
@@ -652,6 +691,8 @@ def _run_once(case: dict, hub: _Hub | None = None, me: int = 0) -> list[str]:
         lines.append("note contended")
     if st.aux_window:
         lines.append("note aux-window")
+    if st.partial_batches:
+        lines.append("note partial-batch")
     return lines
 
 
@@ -835,7 +876,14 @@ def oracle(case: dict, real: list[str]) -> str | None:
         return f"the peer cannot parse the stream: {bad[0]}"
     rx = [ln.split()[1] for ln in real if ln.startswith("rx ")]
     if not c12.is_merge(rx, parts):
-        return f"peer received {rx[:8]}, not a merge of the per-thread sequences {parts}"
+        def short(h: str) -> str:
+            return h if len(h) <= 80 else f"{h[:40]}...({len(h) // 2} bytes)"
+        known = {h for p_ in parts for h in p_}
+        strange = [short(h) for h in rx if h not in known][:3]
+        tail = (f"; {strange} is/are not the serialisation of any packet sent (bytes of a packet not contiguous / not in order "
+                "on the wire)") if strange else ""
+        return (f"peer received {[short(h) for h in rx[:8]]}, not a merge of the per-thread sequences "
+                f"{[[short(h) for h in p_] for p_ in parts]}{tail}")
     for ln in real:
         w = ln.split()
         if w[0] == "final" and (w[1] not in FINAL_EXPECTED or FINAL_EXPECTED[w[1]] != " ".join(w[2:])):
